@@ -143,6 +143,13 @@ def shard(desc):
             if n > 1:
                 c.op('A', 5, xs[1:])
             marks.append((c.op('O', 5), xs, 'from_value+add'))
+        if common.has_rayon(variant) and n >= 1 and (n <= 3 or sum(common.bits(x_) for x_ in xs) % 4 == 0):
+            # collect from a parallel iterator (rayon): a reduction that has no identity element, or a finite one, shows here
+            c.op('P', 8, 2, 1, 1, 'v', 0, 0, xs)
+            marks.append((c.op('O', 8), xs, 'par_collect'))
+            c.op('P', 9, 3, 0, 0, 'r', 0, 0, xs)
+            marks.append((c.op('O', 9), xs, 'par_collect_ref'))
+            res.count('parallel_collects', 2)
         c.op('N', 6)
         marks.append((c.op('O', 6), [], 'new'))
         c.op('D', 7)
@@ -232,9 +239,9 @@ def run(tier, seed):
     total = Result()
     rng = random.Random(seed)
     if tier == 'quick':
-        L, Lh, kmax, nrandom, variants = 5, 3, 3, 4000, [('release', 1.0), ('dev', 0.25), ('plain', 0.2)]
+        L, Lh, kmax, nrandom, variants = 5, 3, 3, 4000, [('release', 1.0), ('dev', 0.25), ('plain', 0.2), ('bare', 0.2)]
     else:
-        L, Lh, kmax, nrandom, variants = 6, 4, 3, 100000, [('release', 1.0), ('dev', 0.25), ('nightly', 0.25), ('plain', 0.1)]
+        L, Lh, kmax, nrandom, variants = 6, 4, 3, 100000, [('release', 1.0), ('dev', 0.25), ('nightly', 0.25), ('plain', 0.1), ('bare', 0.1)]
     work = []
     for n in range(0, L + 1):
         for seq in itertools.product(ALPHA, repeat=n):
